@@ -84,9 +84,10 @@ def run_g11(chk, G11, repo):
                 if isinstance(n, ast.Return) and n.value is not None:
                     depth_of(n.value, env, name)
     pf = pm.functions['partitions']
+    recognised = False
     for n in walk_no_nested(pf.node):
         if isinstance(n, ast.Return) and n.value is not None:
-            depth_of(n.value, {}, 'partitions')
+            recognised = depth_of(n.value, {}, 'partitions') == 3 or recognised
     # the element sequence handed to _partitions is the input in its own order
     for n in walk_no_nested(pf.node):
         if isinstance(n, ast.Assign) and isinstance(n.targets[0], ast.Name):
@@ -98,7 +99,7 @@ def run_g11(chk, G11, repo):
                 for c in bad:
                     viol.append(('partitions', c, f'{dotted(c.func)}() applied to the input elements'))
     chk.instance(G11, f'partitions(): helper functions analysed with argument depth: {sorted(seen)}')
-    if not seen:
+    if not seen and not recognised:
         raise AnalysisError('G11: the pipeline of partitions() was not recognised')
     for fn, site, why in viol:
         chk.violation(G11, pm.rel, fn, unparse(site)[:100],
@@ -169,7 +170,8 @@ def run_g13(chk, G13, repo):
     """set differences per key iterate over the keys of the minuend"""
     pm = repo.module('pharmpy.tools.mfl.parse')
     n = 0
-    for f in pm.functions.values():
+    # the functions of parse.py and the package's own helpers it imports (the set algebra may live in mfl/helpers.py)
+    for f in repo.scope(pm)[1]:
         for dc in [x for x in ast.walk(f.node) if isinstance(x, ast.DictComp)]:
             gen = dc.generators[0]
             if not (isinstance(gen.target, ast.Name) and isinstance(gen.iter, ast.Call)
@@ -264,3 +266,95 @@ def run_g15(chk, G15, repo):
                                       'INDIRECTEFFECT(EMAX,DEGRADATION) raises KeyError')
     if n < 4:
         raise AnalysisError(f'G15: only {n} function look-ups found in the _lnt_ methods')
+
+
+def run_g16_g18(chk, repo):
+    """G16: a transformation is needed exactly when the mode sets are disjoint (truth table of the test in _lnt_helper);
+    G17: the next peripheral count in a stepwise search is the successor of the largest one already added (truth table of
+    _is_allowed_peripheral); G18: lhs_* variables are built from self, rhs_* from other (clone consistency)"""
+    from sa import iterspace as IS
+    pm = repo.module('pharmpy.tools.mfl.parse')
+    mf = pm.classes.get('ModelFeatures')
+    G16 = chk.rule('G16', 'least_number_of_transformations: the generic helper asks for a transformation iff no mode of the '
+                          'left space is in the right space (finite truth table)', floor=4)
+    lnt = mf.methods.get('least_number_of_transformations') if mf else None
+    if lnt is None:
+        raise AnalysisError('ModelFeatures.least_number_of_transformations not found')
+    tests = [I for I in ast.walk(lnt.node) if isinstance(I, ast.If) and 'modes' in unparse(I.test)
+             and any(isinstance(c, ast.Call) and getattr(c.func, 'id', '') in ('any', 'all') or (
+                 isinstance(c, ast.Call) and isinstance(c.func, ast.Attribute) and c.func.attr in ('isdisjoint', 'intersection'))
+                 for c in ast.walk(I.test))]
+    if not tests:
+        raise AnalysisError('G16: the mode comparison of _lnt_helper was not found')
+    for I in tests:
+        srcs = sorted({unparse(x) for x in ast.walk(I.test) if isinstance(x, ast.Attribute) and x.attr == 'modes'})
+        if len(srcs) != 2:
+            raise AnalysisError(f'G16: expected two mode collections in `{unparse(I.test)[:60]}`, found {srcs}')
+        lhs = next(s_ for s_ in srcs if 'lhs' in s_ or 'self' in s_) if any('lhs' in s_ or 'self' in s_ for s_ in srcs) else srcs[0]
+        rhs = next(s_ for s_ in srcs if s_ != lhs)
+        for L, R in ((['A', 'B'], ['B', 'C']), (['A'], ['B']), (['A', 'B'], ['A', 'B']), (['A'], ['A', 'B']), (['A', 'B'], ['C'])):
+            try:
+                got = bool(IS.ev_x(I.test, {lhs: L, rhs: R}))
+            except IS.Unknown as e:
+                raise AnalysisError(f'G16: test not evaluable: {e}')
+            want = not (set(L) & set(R))
+            chk.instance(G16, f'modes {L} vs {R}: transformation requested {got} (disjoint: {want})')
+            if got != want:
+                chk.violation(G16, pm.rel, lnt.qualname, f'if {unparse(I.test)[:80]}: {L} vs {R} -> {got}',
+                              'a transformation is requested although the two spaces share a mode (or not requested although '
+                              'they share none)', line=I.lineno,
+                              witness='ABSORPTION([FO,ZO]) against ABSORPTION([ZO,SEQ-ZO-FO]): a transformation to ZO is '
+                                      'requested although ZO is in both')
+    G17 = chk.rule('G17', '_is_allowed_peripheral: only the direct successor of the largest peripheral count already added is '
+                          'allowed (finite truth table)', floor=5)
+    am = repo.module('pharmpy.tools.modelsearch.algorithms')
+    f = am.functions.get('_is_allowed_peripheral')
+    if f is None:
+        raise AnalysisError('_is_allowed_peripheral not found')
+    # the decision part: from the first statement that tests the list of previous counts
+    names_ = {'n', 'n_all', 'n_prev'}
+    start = next((i for i, s_ in enumerate(f.node.body) if isinstance(s_, (ast.If, ast.Return)) and
+                  {x.id for x in ast.walk(s_) if isinstance(x, ast.Name)} & names_ and not any(
+                      isinstance(a, ast.Assign) and any(isinstance(t, ast.Name) and t.id in names_ for t in a.targets)
+                      for a in ast.walk(s_))), None)
+    if start is None:
+        raise AnalysisError('G17: decision part of _is_allowed_peripheral not found')
+    tail = f.node.body[start:]
+    for n_all, n_prev, n, want in (([1, 2, 3], [1], 2, True), ([1, 2, 3], [1], 3, False), ([1, 2, 3], [], 1, True),
+                                   ([1, 2, 3], [], 2, False), ([1, 2, 3], [1, 2], 3, True), ([1, 3], [1], 3, True),
+                                   ([1, 2, 3], [2], 1, False)):
+        try:
+            got = bool(IS.run_tail(tail, {'n_all': n_all, 'n_prev': n_prev, 'n': n}))
+        except (IS.Unknown, ValueError, IndexError, KeyError) as e:
+            raise AnalysisError(f'G17: decision part not evaluable: {type(e).__name__} {e}')
+        chk.instance(G17, f'counts {n_all}, added {n_prev}, next {n}: allowed {got} (wanted {want})')
+        if got != want:
+            chk.violation(G17, am.rel, f.name, f'counts {n_all}, added {n_prev}, next {n}: allowed {got}',
+                          'the stepwise search may add more than one peripheral compartment in one step (or refuses the next '
+                          'one)', line=f.node.lineno,
+                          witness='PERIPHERALS(1..3): the path PERIPHERALS(1) -> PERIPHERALS(3) is generated')
+    G18 = chk.rule('G18', 'ModelFeatures comparison helpers: lhs_* locals are computed from self, rhs_* from other', floor=4)
+    n18 = 0
+    for name, fn in mf.methods.items():
+        params = [p for p in fn.params if p != 'self']
+        if not params:
+            continue
+        other = params[0]
+        for a in walk_no_nested(fn.node):
+            if isinstance(a, ast.Assign) and isinstance(a.targets[0], ast.Name) and a.targets[0].id.startswith(('lhs', 'rhs')):
+                side = a.targets[0].id[:3]
+                roots = {x.value.id for x in ast.walk(a.value) if isinstance(x, ast.Attribute) and isinstance(x.value, ast.Name)
+                         and x.value.id in ('self', other)}
+                if not roots:
+                    continue
+                n18 += 1
+                want = 'self' if side == 'lhs' else other
+                ok = roots == {want}
+                chk.instance(G18, f'{name}: `{a.targets[0].id}` computed from {sorted(roots)}: {ok}')
+                if not ok:
+                    chk.violation(G18, pm.rel, fn.qualname, unparse(a)[:100],
+                                  f'`{a.targets[0].id}` is computed from {sorted(roots)}: the comparison looks at the same '
+                                  f'operand twice', line=a.lineno,
+                                  witness='two spaces that differ only in their TRANSITS(.., NODEPOT) counts compare equal')
+    if n18 < 4:
+        raise AnalysisError(f'G18: only {n18} lhs_/rhs_ locals found')
